@@ -400,7 +400,89 @@ def rpcUniqueT (o : Options) (ms : List RpcRow) : List Annotation :=
     else users.map RpcRow.ann
   same ++ multi
 
+/-- RPC_REQUEST_RESPONSE_UNIQUE as DOCUMENTED ("a request / response type may be used by one RPC
+    only"): every method of every non-import file is a row of its own, counted over the whole
+    module set — whatever the names of the packages, services and RPCs.  This is the Clean
+    specification (`globalClean`); what the code computes is `rpcUniqueCoded` below. -/
 def rpcUnique (o : Options) (w : Schema) : List Annotation := rpcUniqueT o (rpcTable w)
+
+/-! #### RPC_REQUEST_RESPONSE_UNIQUE as coded: maps keyed by NAMES
+
+  `handleLintRPCRequestResponseUnique` never handles a list of methods: it builds
+  `bufprotosource.FullNameToMethod(files...)` — a Go map keyed by `method.FullName()`, the
+  FULLY-QUALIFIED name `<package>.<Service>.<Method>`, an error when two methods have the same full
+  name — and then, per request / response type, another map from the same key to the method;
+  `len` of that map is "how many RPCs use the type".  Which NAME keys the per-type map decides what
+  the rule can tell apart: `method.NestedName()` (`<Service>.<Method>`, no package) merges
+  `acme.v1.ThingService.GetThing` and `acme.v2.ThingService.GetThing` into one entry.  The model
+  keeps both names per row and is parametric in the key (`rpcUniqueBy`), the code's choice being
+  `RpcEntry.full` (`rpcUniqueCoded`); BufProofs.C05 proves that with THAT key the maps never merge
+  two methods of a linked image (`rpc_unique_keyed_by_full_name`) and shows the v1/v2 witness for
+  the nested name (`rpc_unique_nested_key_counterexample`). -/
+
+/-- `<package>.<nested name>`, or the nested name alone in a file without package
+    (bufprotosource descriptor.go `FullName`). -/
+def qualify (pkg name : Str) : Str := if pkg.isEmpty then name else pkg ++ '.' :: name
+
+/-- `method.NestedName()`: `<Service>.<Method>`. -/
+def rpcNestedName (s : Service) (m : Rpc) : Str := s.name ++ '.' :: m.name
+
+/-- `method.FullName()`. -/
+def rpcFullName (f : File) (s : Service) (m : Rpc) : Str := qualify f.pkg (rpcNestedName s m)
+
+/-- A Go `map[string]V` as an association list with unique keys: `m[k] = v` overwrites. -/
+def goPut {α} (k : Str) (v : α) : List (Str × α) → List (Str × α)
+  | [] => [(k, v)]
+  | (k', v') :: rest => if k' == k then (k, v) :: rest else (k', v') :: goPut k v rest
+
+/-- the map after the assignments `m[k] = v` for every pair of the list, in order -/
+def goMap {α} (kvs : List (Str × α)) : List (Str × α) := kvs.foldl (fun m kv => goPut kv.1 kv.2 m) []
+
+/-- a method as the rule sees it: its two names and the row of the method table -/
+structure RpcEntry where
+  full : Str
+  nested : Str
+  row : RpcRow
+  deriving Repr, DecidableEq
+
+def fileRpcEntries (f : File) : List RpcEntry :=
+  (fileRpcs f).map fun (p, s, m) => ⟨rpcFullName f s m, rpcNestedName s m, ⟨f.path, p, m.inType, m.outType⟩⟩
+
+def rpcEntries (w : Schema) : List RpcEntry := (nonImport w).flatMap fileRpcEntries
+
+/-- no two elements of the list are equal (decidable, structural) -/
+def strsDistinct : List Str → Bool
+  | [] => true
+  | x :: xs => !xs.contains x && strsDistinct xs
+
+/-- The handler as coded, parametric in the name `key` that keys the per-type maps.
+    `FullNameToMethod` fails on two methods with one full name ("duplicate method"): the rule then
+    reports nothing (the lint call fails; no linked image has such methods).  Otherwise: the
+    same-type pass over all methods, then per type the MAP `key ↦ method` of its users and the
+    verdicts of `rpcUniqueT` on the values of that map. -/
+def rpcUniqueBy (key : RpcEntry → Str) (o : Options) (es : List RpcEntry) : List Annotation :=
+  if !strsDistinct (es.map (·.full)) then [] else
+  let aReq := o.rpcAllowGoogleProtobufEmptyRequests
+  let aResp := o.rpcAllowGoogleProtobufEmptyResponses
+  let same :=
+    if o.rpcAllowSameRequestResponse then [] else
+    es.flatMap fun e =>
+      if e.row.inType == e.row.outType && !(e.row.inType == emptyType && aReq && aResp) then [e.row.ann] else []
+  let types := dedup (es.flatMap fun e => [e.row.inType, e.row.outType])
+  let multi := types.flatMap fun t =>
+    let users := (goMap ((es.filter fun e => e.row.inType == t || e.row.outType == t).map fun e => (key e, e.row))).map (·.2)
+    if users.length ≤ 1 then [] else
+    if t == emptyType && (aReq || aResp) then
+      if aReq && aResp then [] else
+      let reqs := users.filter fun x => x.inType == emptyType
+      let resps := users.filter fun x => x.outType == emptyType
+      (if !aReq && reqs.length > 1 then reqs.map RpcRow.ann else []) ++
+      (if !aResp && resps.length > 1 then resps.map RpcRow.ann else [])
+    else users.map RpcRow.ann
+  same ++ multi
+
+/-- RPC_REQUEST_RESPONSE_UNIQUE as coded: keyed by the fully-qualified method name. -/
+def rpcUniqueCoded (o : Options) (w : Schema) : List Annotation := rpcUniqueBy RpcEntry.full o (rpcEntries w)
 
 /-- package of a file path among `files` (FilePathToFile lookup). -/
 def findFile (files : List File) (path : Str) : Option File := files.find? (fun f => f.path == path)
@@ -647,7 +729,7 @@ def globalRule (o : Options) (w : Schema) : Rule → List Annotation
       groupRule .PACKAGE_SAME_RUBY_PACKAGE (nonImport w) (·.pkg) (optVal · 5) (optLoc · 5)
   | .PACKAGE_SAME_SWIFT_PREFIX =>
       groupRule .PACKAGE_SAME_SWIFT_PREFIX (nonImport w) (·.pkg) (optVal · 6) (optLoc · 6)
-  | .RPC_REQUEST_RESPONSE_UNIQUE => rpcUnique o w
+  | .RPC_REQUEST_RESPONSE_UNIQUE => rpcUniqueCoded o w
   | .STABLE_PACKAGE_NO_IMPORT_UNSTABLE => stableNoUnstable w
   | _ => []
 
